@@ -8,6 +8,7 @@ mod rng;
 mod sx;
 
 mod c06;
+mod c08;
 mod c15;
 mod c16;
 
@@ -96,6 +97,8 @@ fn main() {
     std::panic::set_hook(Box::new(|_| {}));
     match group.as_str() {
         "c06" => c06::run(&args, &mut out),
+        "c08" => c08::run(&args, &mut out),
+        "c10" => c08::run_c10(&args, &mut out),
         "c15" => c15::run(&args, &mut out),
         "c16" => c16::run(&args, &mut out),
         other => {
